@@ -114,6 +114,12 @@ def is_number(x):
 
 
 _INF = float("inf")
+ZERO_ATOMS = frozenset()
+
+
+def set_zero_atoms(atoms):
+    global ZERO_ATOMS
+    ZERO_ATOMS = frozenset(atoms)
 
 
 class Poly:
@@ -134,6 +140,8 @@ class Poly:
 
     @staticmethod
     def atom(a, exp=1):
+        if a in ZERO_ATOMS:
+            return Poly()                 # input symbol specialised to 0 (alternative scenario, see scenario.py)
         return Poly({((a, exp),): Fraction(1)})
 
     @staticmethod
